@@ -61,6 +61,7 @@ type Run struct {
 	replayFile   string
 	watchdogMul  float64
 	workers      int
+	quickScale   float64
 
 	replaySection string
 	replayIndex   int
@@ -180,6 +181,11 @@ func (r *Run) Quick() bool { return r.Tier == "quick" }
 // Replaying reports whether the run replays one recorded case.
 func (r *Run) Replaying() bool { return r.replayFile != "" }
 
+// ScaleQuick multiplies the case count of every section by f in the quick tier
+// (cases keep their index-derived sub-seeds, so a larger budget is a superset of
+// a smaller one). Sections with SectionOpts.NoScale are left alone.
+func (r *Run) ScaleQuick(f float64) { r.quickScale = f }
+
 // N picks a budget by tier.
 func (r *Run) N(quick, thorough int) int {
 	if r.Quick() {
@@ -236,10 +242,15 @@ type SectionOpts struct {
 	// SeedGlobalRand calls rand.Seed(subSeed) before each case (only
 	// meaningful with Sequential).
 	SeedGlobalRand bool
+	// NoScale exempts the section from Run.ScaleQuick (complete enumerations).
+	NoScale bool
 }
 
 // Section runs n seeded cases. In replay mode only the recorded case runs.
 func (r *Run) Section(name string, n int, opts SectionOpts, fn func(c *Case)) {
+	if r.Quick() && r.quickScale > 0 && !opts.NoScale {
+		n = int(float64(n)*r.quickScale + 0.5)
+	}
 	if r.Replaying() {
 		if name != r.replaySection {
 			return
